@@ -281,3 +281,158 @@ Inductive att_gdecl : gdecl -> nat -> err -> Prop :=
 Inductive att_program : program -> nat -> err -> Prop :=
 | AP_here p x : In x (i_errs (pg_info p)) -> att_program p 0 x
 | AP_decl p g off n x : In (g, off) (pg_decls p) -> att_gdecl g n x -> att_program p (off + n) x.
+
+(* ------------------------------------------------------------------------------------------ *)
+(* exactly one fault: the statement / expression / variable is well-typed except that exactly one premise of
+   one rule is violated, at one node.  fault_X node x [o]: x is the diagnostic SPL prescribes - the message of
+   the violated rule with the range of the node the rule names, relative to the Reference that encloses
+   `node` (offsets of the References between `node` and the culprit added) - and o is what is known about the
+   node's type afterwards (None: nothing; the enclosing rules then demand nothing of it). *)
+
+Definition err_shift (off : nat) (x : err) : err := {| e_s := e_s x + off; e_e := e_e x + off; e_m := e_m x |}.
+
+(* the diagnostics: on a name (the identifier's last token), on a node, on an expression node *)
+Definition name_err (i : ident) (m : emsg) : err :=
+  {| e_s := i_e (id_info i) - 1; e_e := i_e (id_info i); e_m := m |}.
+Definition node_err (inf : info) (m : smsg) : err := mkerr_t (info_range inf) (ESem m).
+Definition expr_err (e : expr) (m : smsg) : err := mkerr_t (info_range (expr_info e)) (ESem m).
+
+Definition op_type (op : operator) : dtype :=
+  match op with OAdd | OSub | OMul | ODiv => DInt | _ => DBool end.
+
+(* what is known about a faulty subterm's type does not contradict the expected type t *)
+Definition fits (o : option dtype) (t : dtype) : Prop := o = None \/ o = Some t.
+Definition array_or_unknown (o : option dtype) : Prop := o = None \/ exists sz b c, o = Some (DArray sz b c).
+Definition elem_of (o : option dtype) : option dtype := match o with Some (DArray _ b _) => b | _ => None end.
+
+Section Fault.
+Variable L : ltable.
+Variable G : gtable.
+
+Inductive fault_var : variable -> err -> option dtype -> Prop :=
+| FV_undefined i :
+    unbound L G (id_val i) -> i_e (id_info i) <> 0 ->
+    fault_var (NamedVar i) (name_err i (ESem (UndefinedVariable (id_val i)))) None
+| FV_not_a_variable i e :
+    binds L G (id_val i) e -> (forall ve, ~ var_entry e ve) -> i_e (id_info i) <> 0 ->
+    fault_var (NamedVar i) (name_err i (ESem (NotAVariable (id_val i)))) None
+| FV_non_array a e off inf t :
+    var_type L G a t -> ~ is_array t -> expr_type L G e DInt ->
+    fault_var (ArrAccess a (Some (e, off)) inf) (node_err inf IndexingNonArray) None
+| FV_index_type a e off inf sz b c t :
+    var_type L G a (DArray sz (Some b) c) -> expr_type L G e t -> t <> DInt ->
+    fault_var (ArrAccess a (Some (e, off)) inf) (err_shift off (expr_err e IndexingWithNonInteger)) (Some b)
+| FV_in_array a e off inf x o :
+    fault_var a x o -> array_or_unknown o -> expr_type L G e DInt ->
+    fault_var (ArrAccess a (Some (e, off)) inf) x (elem_of o)
+| FV_in_index a e off inf x o sz b c :
+    var_type L G a (DArray sz (Some b) c) -> fault_expr e x o -> fits o DInt ->
+    fault_var (ArrAccess a (Some (e, off)) inf) (err_shift off x) (Some b)
+with fault_expr : expr -> err -> option dtype -> Prop :=
+| FE_var v x o : fault_var v x o -> fault_expr (EVar v) x o
+| FE_paren a inf x o : fault_expr a x o -> fault_expr (EBrack a inf) x o
+| FE_neg_in op a inf x o : fault_expr a x o -> fits o DInt -> fault_expr (EUn op a inf) x (Some DInt)
+| FE_neg op a inf t :
+    expr_type L G a t -> t <> DInt ->
+    fault_expr (EUn op a inf) (node_err inf ArithmeticOperatorNonInteger) (Some DInt)
+| FE_bin_l op l r inf x o :
+    fault_expr l x o -> fits o DInt -> expr_type L G r DInt -> fault_expr (EBin op l r inf) x (Some (op_type op))
+| FE_bin_r op l r inf x o :
+    expr_type L G l DInt -> fault_expr r x o -> fits o DInt -> fault_expr (EBin op l r inf) x (Some (op_type op))
+| FE_different op l r inf tl tr :
+    expr_type L G l tl -> expr_type L G r tr -> (tl = DInt /\ tr <> DInt) \/ (tl <> DInt /\ tr = DInt) ->
+    fault_expr (EBin op l r inf) (node_err inf OperatorDifferentTypes) (Some (op_type op))
+| FE_arithmetic op l r inf tl tr :
+    expr_type L G l tl -> expr_type L G r tr -> tl <> DInt -> tr <> DInt -> op_type op = DInt ->
+    fault_expr (EBin op l r inf) (node_err inf ArithmeticOperatorNonInteger) (Some DInt)
+| FE_comparison op l r inf tl tr :
+    expr_type L G l tl -> expr_type L G r tr -> tl <> DInt -> tr <> DInt -> op_type op = DBool ->
+    fault_expr (EBin op l r inf) (node_err inf ComparisonNonInteger) (Some DBool).
+
+Definition wt_else (els : option (stmt * nat)) : Prop :=
+  match els with None => True | Some (e, _) => wt_stmt L G e end.
+
+Inductive fault_stmt : stmt -> err -> Prop :=
+(* assignment *)
+| FS_assign_types v e off inf tl tr :
+    var_type L G v tl -> expr_type L G e tr -> tl <> tr ->
+    fault_stmt (SAssign v (Some (e, off)) inf) (node_err inf AssignmentHasDifferentTypes)
+| FS_assign_int v e off inf t :
+    var_type L G v t -> expr_type L G e t -> t <> DInt ->
+    fault_stmt (SAssign v (Some (e, off)) inf) (node_err inf AssignmentRequiresIntegers)
+| FS_assign_lhs v e off inf x o :
+    fault_var v x o -> fits o DInt -> expr_type L G e DInt -> fault_stmt (SAssign v (Some (e, off)) inf) x
+| FS_assign_rhs v e off inf x o :
+    var_type L G v DInt -> fault_expr e x o -> fits o DInt ->
+    fault_stmt (SAssign v (Some (e, off)) inf) (err_shift off x)
+(* if / while *)
+| FS_if_cond c oc t ot els inf tc :
+    expr_type L G c tc -> tc <> DBool -> wt_stmt L G t -> wt_else els ->
+    fault_stmt (SIf (Some (c, oc)) (Some (t, ot)) els inf) (err_shift oc (expr_err c IfConditionMustBeBoolean))
+| FS_if_in_cond c oc t ot els inf x o :
+    fault_expr c x o -> fits o DBool -> wt_stmt L G t -> wt_else els ->
+    fault_stmt (SIf (Some (c, oc)) (Some (t, ot)) els inf) (err_shift oc x)
+| FS_if_then c oc t ot els inf x :
+    expr_type L G c DBool -> fault_stmt t x -> wt_else els ->
+    fault_stmt (SIf (Some (c, oc)) (Some (t, ot)) els inf) (err_shift ot x)
+| FS_if_else c oc t ot e oe inf x :
+    expr_type L G c DBool -> wt_stmt L G t -> fault_stmt e x ->
+    fault_stmt (SIf (Some (c, oc)) (Some (t, ot)) (Some (e, oe)) inf) (err_shift oe x)
+| FS_while_cond c oc b ob inf tc :
+    expr_type L G c tc -> tc <> DBool -> wt_stmt L G b ->
+    fault_stmt (SWhile (Some (c, oc)) (Some (b, ob)) inf) (err_shift oc (expr_err c WhileConditionMustBeBoolean))
+| FS_while_in_cond c oc b ob inf x o :
+    fault_expr c x o -> fits o DBool -> wt_stmt L G b ->
+    fault_stmt (SWhile (Some (c, oc)) (Some (b, ob)) inf) (err_shift oc x)
+| FS_while_body c oc b ob inf x :
+    expr_type L G c DBool -> fault_stmt b x ->
+    fault_stmt (SWhile (Some (c, oc)) (Some (b, ob)) inf) (err_shift ob x)
+(* compound statement *)
+| FS_block pre s off post inf x :
+    wt_stmts L G pre -> fault_stmt s x -> wt_stmts L G post ->
+    fault_stmt (SBlock (pre ++ (s, off) :: post) inf) (err_shift off x)
+(* calls *)
+| FS_undefined_procedure name args inf :
+    unbound L G (id_val name) ->
+    fault_stmt (SCall name args inf) (node_err inf (UndefinedProcedure (id_val name)))
+| FS_non_procedure name args inf e :
+    binds L G (id_val name) e -> (forall pe, e <> EntProc pe) ->
+    fault_stmt (SCall name args inf) (node_err inf (CallOfNoneProcedure (id_val name)))
+| FS_too_few name args inf pe ppre rest :
+    binds L G (id_val name) (EntProc pe) -> pe_params pe = ppre ++ rest -> rest <> [] ->
+    Forall2 (arg_ok L G) args ppre ->
+    fault_stmt (SCall name args inf) (node_err inf (TooFewArguments (id_val name)))
+| FS_too_many name pre extra inf pe :
+    binds L G (id_val name) (EntProc pe) -> extra <> [] -> Forall2 (arg_ok L G) pre (pe_params pe) ->
+    fault_stmt (SCall name (pre ++ extra) inf) (node_err inf (TooManyArguments (id_val name)))
+| FS_arg_type name inf pe pre ppre a off p post ppost t t2 :
+    binds L G (id_val name) (EntProc pe) -> pe_params pe = ppre ++ p :: ppost ->
+    Forall2 (arg_ok L G) pre ppre -> Forall2 (arg_ok L G) post ppost ->
+    expr_type L G a t -> ve_ty p = Some t2 -> t <> t2 -> (ve_ref p = true -> exists v, a = EVar v) ->
+    fault_stmt (SCall name (pre ++ (a, off) :: post) inf)
+               (err_shift off (expr_err a (ArgumentsTypeMismatch (id_val name) (S (length pre)))))
+| FS_arg_variable name inf pe pre ppre a off p post ppost t :
+    binds L G (id_val name) (EntProc pe) -> pe_params pe = ppre ++ p :: ppost ->
+    Forall2 (arg_ok L G) pre ppre -> Forall2 (arg_ok L G) post ppost ->
+    expr_type L G a t -> ve_ty p = Some t -> ve_ref p = true -> (forall v, a <> EVar v) ->
+    fault_stmt (SCall name (pre ++ (a, off) :: post) inf)
+               (err_shift off (expr_err a (ArgumentMustBeAVariable (id_val name) (S (length pre)))))
+| FS_arg_in name inf pe pre ppre a off p post ppost x o :
+    binds L G (id_val name) (EntProc pe) -> pe_params pe = ppre ++ p :: ppost ->
+    Forall2 (arg_ok L G) pre ppre -> Forall2 (arg_ok L G) post ppost ->
+    fault_expr a x o -> (o = None \/ o = ve_ty p) -> (ve_ref p = true -> exists v, a = EVar v) ->
+    fault_stmt (SCall name (pre ++ (a, off) :: post) inf) (err_shift off x).
+
+End Fault.
+
+(* a program with exactly one semantic fault: declarations well-formed, all bodies well-typed except one
+   statement of one procedure's body; y is the diagnostic in absolute token indices *)
+Definition fault_program (p : program) (G : gtable) (y : err) : Prop :=
+  wf_program p G /\
+  exists dpre pd doff dpost spre s soff spost x,
+    pg_decls p = dpre ++ (GProc pd, doff) :: dpost /\
+    Forall (fun d => has_entry G d /\ wt_body G d) dpre /\ Forall (fun d => has_entry G d /\ wt_body G d) dpost /\
+    pd_stmts pd = spre ++ (s, soff) :: spost /\
+    (exists pe, own_entry G pd doff pe /\
+       wt_stmts (pe_local pe) G spre /\ fault_stmt (pe_local pe) G s x /\ wt_stmts (pe_local pe) G spost) /\
+    y = err_shift (doff + soff) x.
